@@ -314,6 +314,11 @@ func (f *Face) GlyphVOrigin(glyph GID) (x, y int32, found bool) {
 
 	if f.vorg != nil {
 		y = int32(f.vorg.YOrigin(gID(glyph)))
+		if f.vvar != nil && f.vvarVOrg != nil && len(f.coords) != 0 {
+			// the origin varies with the instance
+			delta := f.vvar.ItemVariationStore.GetDelta(f.vvarVOrg.Index(gID(glyph)), f.coords)
+			y = int32(math.Floor(float64(float32(y)+delta) + 0.5))
+		}
 		return x, y, true
 	}
 
